@@ -1358,3 +1358,42 @@ mutant("seed-c20-skip-unchanged", "C20", (L, "        rollback_settings = vars(s
 mutant("seed-c14-rule-block-without-engine", "C14", (I, "            rule_block = self.rule_block(self.separator.join(block), engine)", "            rule_block = self.rule_block(self.separator.join(block))"), "T14/FllImporter._process->rule_block")
 mutant("seed-c14-term-no-update-reference", "C14", (I, "        term.update_reference(engine)\n        return term", "        return term"), "T")
 mutant("seed-c15-maxlist-not-lifted", "C15", (L, "        self.maxlist *= increase_factor\n", ""), "R11/Representation.__init__/maxlist")
+
+# ------------------------------------------------------------------------------------------ C03 order types (A2 / A3)
+mutant("c03-rectangle-open-left", "C03", (T, "((s <= x) & (x <= e))", "((s < x) & (x <= e))"), "A3")
+mutant("c03-binary-open-edge", "C03", (T, "right = (self.direction > self.start) & (x >= self.start)", "right = (self.direction > self.start) & (x > self.start)"), "A3")
+mutant("c03-zshape-strict-start", "C03", (T, """        z_shape = np.where(
+            x <= s,""", """        z_shape = np.where(
+            x < s,"""), "A3")
+mutant("c03-triangle-peak-dropped", ["C03"], (T, "(x == b) | ((a == -inf) & (x < b)) | ((c == inf) & (x > b)),", "((a == -inf) & (x < b)) | ((c == inf) & (x > b)),"), "A2")
+mutant("c03-triangle-closed-foot", ["C03"], (T, """                (x < a) | (x > c),
+                0.0,
+                np.where(
+                    (x == b)""", """                (x <= a) | (x > c),
+                0.0,
+                np.where(
+                    (x == b)"""), "A3")
+equivalent("c03-eq-rectangle-flipped-comparisons", "C03", (T, "((s <= x) & (x <= e))", "((x >= s) & (e >= x))"))
+equivalent("c03-eq-sshape-difference-test", "C03", (T, """        s_shape = np.where(
+            x <= self.start,""", """        s_shape = np.where(
+            x - self.start <= 0,"""))
+
+# exact definitions (A3 normal forms): numeric changes that keep every sign class
+mutant("c03-gaussian-variance-factor", "C03", (T, "* np.exp(-np.square(x - m) / (2.0 * std**2))", "* np.exp(-np.square(x - m) / (std**2))"), "A3")
+mutant("c03-sigmoid-sign-of-slope", "C03", (T, "/ (1.0 + np.exp(-s * (x - i)))", "/ (1.0 + np.exp(s * (x - i)))"), "A3")
+mutant("c03-spike-decay-constant", "C03", (T, "np.exp(-np.abs(10.0 / w * (x - c)))", "np.exp(-np.abs(1.0 / w * (x - c)))"), "A3")
+mutant("c03-trapezoid-falling-denominator", "C03", (T, "                            (d - x) / (d - c),", "                            (d - x) / (d - b),"), "A3")
+mutant("c03-triangle-rising-numerator", "C03", (T, """                        (x - a) / (b - a),
+                        np.where(
+                            x > b,
+                            (c - x) / (c - b),""", """                        (x - a) / (c - a),
+                        np.where(
+                            x > b,
+                            (c - x) / (c - b),"""), "A3")
+mutant("c03-cosine-period", "C03", (T, "0.5 * (1.0 + np.cos(2.0 / w * np.pi * (x - c))),", "0.5 * (1.0 + np.cos(1.0 / w * np.pi * (x - c))),"), "A3")
+mutant("c03-bell-exponent", "C03", (T, "np.power(np.abs((x - c) / w), 2.0 * s)", "np.power(np.abs((x - c) / w), s)"), "A3")
+mutant("c03-sshape-branches-swapped", "C03", (T, """                x <= 0.5 * (s + e),
+                2.0 * np.square((x - s) / (e - s)),""", """                x <= 0.5 * (s + e),
+                2.0 * np.square((x - e) / (e - s)),"""), "A3")
+equivalent("c03-eq-gaussian-power-form", "C03", (T, "* np.exp(-np.square(x - m) / (2.0 * std**2))", "* np.exp(-((x - m) ** 2) / (2.0 * std * std))"))
+equivalent("c03-eq-sigmoid-reciprocal", "C03", (T, "/ (1.0 + np.exp(-s * (x - i)))", "* (1.0 / (1.0 + np.exp((i - x) * s)))"))
